@@ -38,6 +38,74 @@ CCS_MOVE = ("        f.seek(old_extra_lease_offset)\n"
             "        f.write(extra_lease_data)\n"
             "        self._write_extra_lease_offset(f, new_extra_lease_offset)\n")
 
+B32 = "src/allmydata/util/base32.py"
+_B32_HELPER_OLD = """def _get_trailing_chars_without_lsbs(N, d):
+    \"\"\"
+    @return: a list of chars that can legitimately appear in the last place when the least significant N bits are ignored.
+    \"\"\"
+    s = []
+    if N < 4:
+        s.extend(_get_trailing_chars_without_lsbs(N+1, d=d))
+    i = 0
+    while i < len(chars):
+        if i not in d:
+            d[i] = None
+            s.append(chars[i:i+1])
+        i = i + 2**N
+    return s
+
+def get_trailing_chars_without_lsbs(N):
+    precondition((N >= 0) and (N < 5), "N is required to be > 0 and < len(chars).", N=N)
+    if N == 0:
+        return chars
+    d = {}
+    return b''.join(_get_trailing_chars_without_lsbs(N, d=d))
+"""
+_B32_HELPER_NEW = """def get_trailing_chars_without_lsbs(N):
+    precondition((N >= 0) and (N < 5), "N is required to be >= 0 and < 5.", N=N)
+    return bytes(c for (v, c) in enumerate(chars) if %s)
+"""
+_B32_TABLE_OLD = """def add_check_array(cs, sfmap):
+    checka=[0] * 256
+    for c in bytes(cs):
+        checka[c] = 1
+    sfmap.append(tuple(checka))
+
+def init_s8():
+    s8 = []
+    add_check_array(chars, s8)
+    for lenmod8 in (1, 2, 3, 4, 5, 6, 7,):
+        if NUM_QS_LEGIT[lenmod8]:
+            add_check_array(get_trailing_chars_without_lsbs(5-(NUM_QS_TO_NUM_BITS[lenmod8]%5)), s8)
+        else:
+            add_check_array(b'', s8)
+    return tuple(s8)
+s8 = init_s8()
+
+def could_be_base32_encoded(s, s8=s8, tr=bytes.translate, identitytranstable=identitytranstable, chars=chars):
+    precondition(isinstance(s, bytes), s)
+    if s == b'':
+        return True
+    s = bytes(s)  # On Python 2, make sure we're using modern bytes
+    return s8[len(s)%8][s[-1]] and not tr(s, identitytranstable, chars)
+"""
+_B32_TABLE_NEW = """LAST_CHARS = tuple(
+    get_trailing_chars_without_lsbs((5 - numbits % 5) % 5) if legit else b''
+    for (legit, numbits) in zip(NUM_QS_LEGIT, NUM_QS_TO_NUM_BITS)
+)
+
+def could_be_base32_encoded(s):
+    precondition(isinstance(s, bytes), s)
+    if s == b'':
+        return True
+    return s[-1] in LAST_CHARS[len(s)%8] and not s.translate(None, chars)
+"""
+_B32_PAD_OLD = """    while (len(cs) * 5) % 8 != 0:
+        cs += b"="
+"""
+_B32_PAD_NEW = """    cs += b"=" * (-len(cs) % 8)
+"""
+
 MUTANTS = [
     # ---- C38.1 lease records
     M("lease-reader-names-swapped", LEASE,
@@ -134,6 +202,32 @@ MUTANTS = [
     # ---- C38.8: the former finding (repaired in the tree, fix 7af941e); undoing the repair must fire again
     M("base32-last-char-table-too-lax", "src/allmydata/util/base32.py", "5-(NUM_QS_TO_NUM_BITS[lenmod8]%5)", "4-(NUM_QS_TO_NUM_BITS[lenmod8]%5)", "C38.8",
       note="a2b accepts non-canonical final characters: a2b(b'ac') == a2b(b'aa')"),
+    # ---- round 5 (seeded C38-I): the codec is decided by interpreting a2b / b2a on probe strings, whatever tables and
+    # helpers they consult; the same refactor of util/base32.py once with the slip and once done faithfully
+    M("base32-refactor-mod-precedence-slip", B32, _B32_HELPER_OLD, _B32_HELPER_NEW % "v % 2*N == 0", "C38.8",
+      edits=[(B32, _B32_TABLE_OLD, _B32_TABLE_NEW), (B32, _B32_PAD_OLD, _B32_PAD_NEW)],
+      note="seeded C38-I: `v % 2*N` is `(v % 2) * N`; for 2..4 ignored bits every even-valued final character is accepted"),
+    M("benign-base32-refactor-faithful", B32, _B32_HELPER_OLD, _B32_HELPER_NEW % "v % 2**N == 0", None,
+      edits=[(B32, _B32_TABLE_OLD, _B32_TABLE_NEW), (B32, _B32_PAD_OLD, _B32_PAD_NEW)]),
+    M("base32-refactor-one-bit-too-few", B32, _B32_HELPER_OLD, _B32_HELPER_NEW % "v % 2**N == 0", "C38.8",
+      edits=[(B32, _B32_TABLE_OLD, _B32_TABLE_NEW.replace("(5 - numbits % 5) % 5", "(4 - numbits % 5) % 5")), (B32, _B32_PAD_OLD, _B32_PAD_NEW)],
+      note="the table form of the former finding"),
+    M("base32-step-slip-in-loop-form", B32, "        i = i + 2**N\n", "        i = i + 2*N\n", "C38.8",
+      note="the same slip in the unrefactored helper: steps 6 and 8 instead of 8 and 16"),
+    M("base32-a2b-gate-dropped", B32, '    precondition(could_be_base32_encoded(cs), "cs is required to be possibly base32 encoded data.", cs=cs)\n', "", "C38.8",
+      note="base64.b32decode alone drops the unused low bits of the final character"),
+    M("base32-gate-or-for-and", B32, "    return s8[len(s)%8][s[-1]] and not tr(s, identitytranstable, chars)", "    return s8[len(s)%8][s[-1]] or not tr(s, identitytranstable, chars)", "C38.8"),
+    M("base32-refactor-pad-wrong-sign", B32, _B32_PAD_OLD, '    cs += b"=" * (len(cs) % 8)\n', "C38.7",
+      note="pads 2 -> 4 characters instead of 2 -> 8: b32decode raises on every encoder output that needs padding; test_base32 also notices"),
+    M("base32-refactor-table-skips-a-class", B32, _B32_HELPER_OLD, _B32_HELPER_NEW % "v % 2**N == 0", "C38.7",
+      edits=[(B32, _B32_TABLE_OLD, _B32_TABLE_NEW.replace("zip(NUM_QS_LEGIT, NUM_QS_TO_NUM_BITS)", "zip(NUM_QS_LEGIT, NUM_QS_TO_NUM_BITS[1:])"))],
+      note="table rows shifted by one length class; test_base32 also notices"),
+    M("benign-base32-pad-arithmetic", B32, _B32_PAD_OLD, _B32_PAD_NEW, None),
+    M("benign-base32-gate-method-translate", B32, "    return s8[len(s)%8][s[-1]] and not tr(s, identitytranstable, chars)",
+      "    return bool(s8[len(s)%8][s[-1]]) and s.translate(None, chars) == b''", None),
+    M("benign-base32-b2a-order", B32, '    return base64.b32encode(os).rstrip(b"=").lower()', '    encoded = base64.b32encode(os).lower()\n    return encoded.rstrip(b"=")', None),
+    M("base32-codec-not-interpretable", B32, "    return base64.b32decode(cs)\n", "    return bytes(memoryview(base64.b32decode(cs)))\n", "ANALYSIS-ERROR",
+      note="fail closed: the decoder uses something the constant interpreter does not model (here harmlessly)"),
     # ---- C38.9 version dispatch of the share layout readers
     M("ver-imm-and-or-slip", LAY, "        if version != 1 and version != 2:\n", "        if version < 1 and version > 2:\n", "C38.9",
       note="seeded C38-B: the range test can never be true, unknown versions are parsed with the v2 layout"),
